@@ -25,7 +25,9 @@ PROP = {
              "value records from a boundary pool (0, 0.5, 1-1e-18, 1, 1+1e-18, ties at 3/5/100/200, 2^53+1, active=0 with total>0); 90% of "
              "the cases run on a CacheContext branch with the module Begin/EndBlock functions in app order, 10% are consecutive windows of "
              "one committed chain driven through the real ABCI BeginBlock/EndBlock/Commit; distinct = distinct sha1 of the case; "
-             "non-trivial = at least one epoch-end block returned a non-empty update list. 6 + N/40 cases are large sets (13-20 operators, the extra ones "
+             "non-trivial = at least one epoch-end block returned a non-empty update list. MinSelfDelegation / MaxValidators are changed through the real "
+             "dogfood MsgUpdateParams handler; 8 + N/30 cases (params family) have no direct USD writes: every epoch end is priced by the real "
+             "operator hook after MinSelfDelegation updates and self-delegation changes across / onto the minimum. 6 + N/40 cases are large sets (13-20 operators, the extra ones "
              "registered through the real entry points with equal stakes; every epoch-end block has a tie group of 13..n operators and "
              "MaxValidators strictly inside it: sort.Slice leaves insertion sort above 12 elements). The first three cases are directed observations "
              "(tag obs-C06-empty-validator-set: all operators opt out / fall below the minimum self delegation / are jailed in one epoch: EndBlock "
